@@ -72,6 +72,13 @@ def instances(tier):
         for shape, good, bad in shapes:
             out.append((kind, shape, good, None))
             out.append((kind, shape, bad, None))
+    # the same numbers in other memory representations: looking at a result must not depend on how its arrays are stored
+    for kind in kit.DATASET_KINDS:
+        for storage in kit.STORAGES[1:]:
+            if tier == 'quick' and storage in ('fortran', 'float32') and kind not in ('equal', 'student'):
+                continue
+            out.append((kind, (2, 2) if storage == 'fortran' else (3,), ((False, True, False, False),) if storage == 'fortran'
+                        else ((False, True, False),), None, storage))
     out += [('metadata', None, None, (True, True)), ('metadata', None, None, (True, False)),
             ('stats_tasks', None, None, ('DONE', 'DONE')), ('stats_tasks', None, None, ('DONE', 'FAILED', 'SKIPPED')),
             ('stats_tests', None, None, ((True,), (True, True))), ('stats_tests', None, None, ((True,), (False,), None)),
@@ -81,9 +88,9 @@ def instances(tier):
 
 
 def make(inst):
-    kind, shape, patterns, extra = inst
+    kind, shape, patterns, extra = inst[:4]
     if kind in kit.DATASET_KINDS:
-        return kit.build(kind, shape=shape, patterns=patterns)
+        return kit.build(kind, shape=shape, patterns=patterns, storage=inst[4] if len(inst) > 4 else None)
     return kit.build(kind, extra=extra)
 
 
@@ -149,7 +156,7 @@ def job(inst):
         rep.evaluations += 1
         if one != two:
             rep.violate(f'C13|evaluate-not-repeatable|{inst[0]}', f'two evaluations differ: {diff(one, two)}', {'instance': inst})
-    tag = f'{inst[0]}|verdict={verdict0}'
+    tag = f'{inst[0]}|verdict={verdict0}' + (f'|{inst[4]}' if len(inst) > 4 else '')
 
     def run_seq(hist):
         _, res = make(inst)
@@ -209,7 +216,7 @@ def replay(case):
     inst = tuple(tuple(x) if isinstance(x, list) else x for x in case['instance']) if 'instance' in case else None
     if inst is None:
         return {'note': 're-run ./vf check C13 (BFS case without instance)', 'violates': False}
-    inst = (inst[0], tuple(inst[1]) if isinstance(inst[1], (list, tuple)) else inst[1], _tup(inst[2]), _tup(inst[3]))
+    inst = (inst[0], tuple(inst[1]) if isinstance(inst[1], (list, tuple)) else inst[1], _tup(inst[2]), _tup(inst[3])) + tuple(inst[4:])
     _, res = make(inst)
     init, verdict0 = state_of(res), bool(res)
     for oper in case.get('history', []):
